@@ -150,8 +150,18 @@ def run(prog, chk):
         else:
             chk.ok("C10.a", f, "conversion joins before reading the result", "%s:%s" % (f.file, f.line), "reachability", evals=2)
     for f in fn1(prog, lambda f: f.kind == "dtor" and re.match(r"^Future<.*>::~Future$", f.tname or "") is not None, "~Future"):
-        if callees(f, "::join") and q.must_pass_from_entry(f, callees(f, "::join")) is None:
-            chk.ok("C10.a", f, "destructor joins", "%s:%s" % (f.file, f.line), "join() on every path", nontrivial=False)
+        inline_join = False
+        if not callees(f, "::join"):
+            # join() written out: every path on which `_joinable` is not known false waits for the completion signal
+            waits_ = [c for c in q.calls(f) if (f.nodes[c].get("callee") or "").endswith("Signal::wait") and "_sig" in f.r(c)]
+            cut_ = set()
+            for b_ in f.blocks.values():
+                nt_ = fin.null_test(f, b_.get("cond")) if len(b_["succ"]) == 2 and b_.get("tk") != "SwitchStmt" else None
+                if nt_ is not None and nt_[0] == "this->_joinable" and b_["succ"][nt_[1]] is not None:
+                    cut_.add((b_["id"], b_["succ"][nt_[1]]))
+            inline_join = bool(waits_) and bool(cut_) and fin.path_with_cuts(f, f.entry_pos(), f.exit_pos(), avoid=q.pos_of(f, waits_), cut=cut_, after_src=False) is None
+        if inline_join or (callees(f, "::join") and q.must_pass_from_entry(f, callees(f, "::join")) is None):
+            chk.ok("C10.a", f, "destructor joins", "%s:%s" % (f.file, f.line), "join() (or its body: wait on the completion signal while joinable) on every path", nontrivial=False)
         else:
             chk.bad("C10.a", f, "destructor-does-not-join", "%s:%s" % (f.file, f.line), "~Future must join(): the worker writes into the future after it is destroyed")
     f = fn1(prog, lambda f: f.name == "Future<void>::startProc", "startProc")[0]
